@@ -119,7 +119,7 @@ class Roots:
         r = self.memo.get(key)
         if r is not None:
             return r
-        self.memo[key] = frozenset(["Y:rec"])
+        self.memo[key] = frozenset()
         r = frozenset(self._roots(v, path))
         self.memo[key] = r
         return r
@@ -179,6 +179,8 @@ class Roots:
                 if alt is not None:
                     return {"or(%s;%s)%s" % ("|".join(sorted(self.roots(v[4][0], (("v", "Some"), ("f", 0))))),
                                               "|".join(sorted(alt)), path_str(path))}
+            if re.search(r"cw_storage_plus::(map::)?Map::(load|may_load)$", cs) and len(v[4]) == 3:
+                return {"mload(%s)[%s]%s" % ("|".join(sorted(self.roots(v[4][0]))), "|".join(sorted(self.roots(v[4][2]))), path_str(_strip_wrapper(path)))}
             for rx, label, ai in WRAPPERS:
                 if rx.search(cs) and ai < len(v[4]):
                     pp = path_str(_strip_wrapper(path))
@@ -198,6 +200,8 @@ class Roots:
                 for name, fv in v[3]:
                     out |= self.roots(fv, p2[1:])
                 return out
+            if not p2 and v[1] == "tuple" and self.agg_fields and v[3]:
+                return {"A:tuple(%s)" % ";".join("|".join(sorted(self.roots(fv))) for _, fv in v[3])}
             if not p2 and v[1] == "array" and self.agg_fields:
                 return {"A:%s[%s]" % (v[2], ";".join("|".join(sorted(self.roots(fv))) for _, fv in v[3]))}
             if not p2 and v[1] == "adt" and self.agg_fields:
@@ -230,7 +234,8 @@ class Roots:
         if k == "discr":
             return {"X:discr(%s)" % "|".join(sorted(self.roots(v[1])))}
         if k == "cycle":
-            return {"Y:%s:_%d" % (v[1], v[2])}
+            # a loop-carried self reference adds nothing to the least fixpoint of the surrounding phi
+            return set()
         if k == "uninit":
             return set()
         return {"U:%s" % (v[1] if len(v) > 1 else k)}
